@@ -247,6 +247,8 @@ def gen_exp_scenario(r, kind=None, dim_max=5):
         t["kind"] = r.choice(DENSITY_KINDS + ["post"])
         if r.random() < 0.8:
             k["initial_point"] = ip
+    if kind in ("MH", "MALA", "NUTS", "ULA", "LinearRTO") and "initial_point" in k and r.random() < 0.12:
+        k["ip_cuqiarray"] = True          # the start vector is handed over as a geometry-carrying CUQIarray
     if kind == "MH":
         k["scale"] = round(r.choice([0.05, 0.3, 0.8, 1.0, 2.5]), 3)
     elif kind == "CWMH":
@@ -338,6 +340,10 @@ def build_exp_sampler(ctx, sc, callback=None, target=None):
     k = dict(sc["knobs"])
     if "initial_point" in k and k["initial_point"] is not None:
         k["initial_point"] = np.array(k["initial_point"], float)
+        if k.pop("ip_cuqiarray", False):
+            from cuqi.array import CUQIarray
+            k["initial_point"] = CUQIarray(k["initial_point"], geometry=target.geometry)
+    k.pop("ip_cuqiarray", None)
     if isinstance(k.get("scale"), list):
         k["scale"] = np.array(k["scale"], float)
     cls = getattr(M, sc["kind"])
@@ -496,8 +502,11 @@ def gen_legacy_scenario(r, kind=None):
     sc = gen_exp_scenario(r, exp_kind)
     sc["kind"] = kind
     k = sc["knobs"]
+    k.pop("ip_cuqiarray", None)
     if "initial_point" in k:
         k["x0"] = k.pop("initial_point")
+    if kind == "pCN" and r.random() < 0.3:
+        sc["target"]["tuple_target"] = True       # legacy pCN accepts (likelihood, prior)
     if kind == "NUTS":
         ss = k.pop("step_size", None)
         k.pop("opt_acc_rate", None)
@@ -520,6 +529,8 @@ def build_legacy_sampler(ctx, sc, callback=None):
         target, info = rto_tuple_target(sc["target"]), {}
     else:
         target, info = build_exp_target(ctx, dict(sc, kind=exp_kind))
+    if kind == "pCN" and sc["target"].get("tuple_target"):
+        target = (target.likelihood, target.prior)
     k = dict(sc["knobs"])
     if k.get("x0") is not None:
         k["x0"] = np.array(k["x0"], float)
